@@ -149,8 +149,8 @@ def matrices(rep):
             kinds = [c for c in ast.walk(t) if isinstance(c, ast.Compare) and is_const(c.comparators[0], "species")] if t is not None else []
             okk = False
             for c in kinds:
-                m = pmatch("$d.get('kind')", c.left)
-                if m and pmatch(f"{Gv}.nodes[{first}]", origin(local_defs(lp[0]), ast.Name(id=m["d"], ctx=ast.Load()))) is not None:
+                m = pmatch("$$d.get('kind')", c.left)
+                if m is not None and pmatch(f"{Gv}.nodes[{first}]", origin(local_defs(lp[0]), c.left.func.value)) is not None:
                     okk = True
             ok = ok and okk
     rep.ob("O17.1", "R15", mp, ok, "s_node, r_node = <species end>, <reaction end>", "the end tagged 'species' becomes the row, the end tagged 'reaction' the column")
@@ -345,14 +345,27 @@ def witnesses(rep):
     pm = parent_map(fi.node)
     defs = local_defs(fi.node)
     pos = [r for r in returns_of(fi.node) if isinstance(r.value, ast.Tuple) and not is_const(r.value.elts[0], None)]
-    rep.need("DOM", len(pos), 3, "positive returns of _positive_conservation_law_from_basis")
+    rep.need("DOM", len(pos), 2, "positive returns of _positive_conservation_law_from_basis")
+    rep.need("DOM", len([r for r in pos if is_const(r.value.elts[1], True)]), 1, "LP witness return")
+    rep.need("DOM", len([r for r in pos if is_const(r.value.elts[1], False)]), 1, "basis-vector witness return")
     for r in pos:
         flag = r.value.elts[1]
-        wm = pmatch("$m / np.sum($m)", r.value.elts[0])
-        if wm is None:
+        w = r.value.elts[0]
+        conds = [t for t, s in guards_of(pm, r, fi.node) if s]
+        if isinstance(w, ast.Name):
+            # `law = X if C else None` returned under `law is not None`: the witness is X and C holds
+            src = origin(defs, w)
+            if isinstance(src, ast.IfExp) and any(pmatch(f"{w.id} is not None", t) is not None for t in conds):
+                if is_const(src.orelse, None):
+                    conds, w = conds + [src.test], src.body
+                elif is_const(src.body, None):
+                    conds, w = conds + [ast.UnaryOp(op=ast.Not(), operand=src.test)], src.orelse
+        wm = isinstance(w, ast.BinOp) and isinstance(w.op, ast.Div) and pmatch("np.sum($$m)", w.right) is not None and norm(w.right.args[0]) == norm(w.left)
+        if not wm:
             rep.ob("O17.3", "DOM", fi, None, alpha(r, fi.node), "returned witness is not of the form m / sum(m)", node=r)
             continue
-        M = wm["m"]
+        Mx = w.left
+        M = norm(Mx)
         if is_const(flag, True):
             # LP path: must be dominated by the re-check `if not np.all(m > eps): return None, True`
             checks = [n for n in cfg.stmts() if isinstance(n, ast.If) and pmatch(f"not np.all({M} > eps)", n.test) is not None
@@ -367,16 +380,22 @@ def witnesses(rep):
                     isinstance(x, ast.Attribute) and x.attr == "x" for x in ast.walk(origin(defs, ast.Name(id=a_, ctx=ast.Load()))))
             rep.ob("O17.3", "DOM", fi, oka, "m = B @ a", "the LP witness is a combination of left-kernel vectors (so it annihilates S)")
         else:
-            gs = [t for t, s in guards_of(pm, r, fi.node) if s]
+            gs = conds
             col = None
             for t in gs:
-                m = pmatch("np.all($c > eps) or np.all($c < -eps)", t)
-                if m:
+                m = pmatch("np.all($$c > eps) or np.all($$c < -eps)", t)
+                if m is not None:
                     col = m["c"]
             rep.ob("O17.3", "DOM", fi, col is not None, "return under np.all(col > eps) or np.all(col < -eps)" if col else f"return under {[norm(t) for t in gs]}",
                    "a basis vector is accepted only if all its entries are strictly positive (or all strictly negative, then negated)", node=r)
-            msrc = [d for d in defs.get(M, []) if d.kind == "assign" and isinstance(d.value, ast.IfExp)]
-            ok2 = col is not None and all(pmatch(f"{col} if np.all({col} > 0) else -{col}", d.value) is not None for d in msrc) and len(msrc) >= 2
+            if isinstance(Mx, ast.Name):
+                lds = [d for d in defs.get(M, []) if d.kind == "assign" and isinstance(d.value, ast.IfExp)]
+                # the definition that reaches this return: the closest one above it
+                above = [d for d in lds if d.stmt.lineno <= r.lineno]
+                msrc = [max(above, key=lambda d: d.stmt.lineno).value] if above else []
+            else:
+                msrc = [Mx] if isinstance(Mx, ast.IfExp) else []
+            ok2 = col is not None and bool(msrc) and all(pmatch(f"{col} if np.all({col} > 0) else -{col}", v_) is not None for v_ in msrc)
             rep.ob("O17.3", "DOM", fi, ok2, "m = col if np.all(col > 0) else -col", "a negative basis vector is negated before it is returned")
     # lp_attempted flag: True only after linprog was actually called
     for r in returns_of(fi.node):
@@ -394,12 +413,60 @@ def witnesses(rep):
     WIT, ATT = up.get((0,)), up.get((1,))
     Bv = [nm for nm, xs in idefs.items() for x in xs if x.kind == "assign" and isinstance(x.value, ast.Call) and call_name(x.value) == "left_nullspace"]
     Bv = Bv[0] if Bv else "?"
-    for r in [x for x in returns_of(ic.node) if is_const(x.value, False)]:
-        gs = [norm(t) for t, s in guards_of(pm, r, ic.node) if s]
-        ok = any(g in (ATT, f"{Bv} is None or {Bv}.size == 0") for g in gs)
-        rep.ob("O17.3", "DOM", ic, ok, f"return False under {len(gs)} guard(s)", "a definitive 'not conservative' comes only from a trivial kernel or an attempted LP", {"guards": gs}, node=r)
-    ok = WIT is not None and any(pmatch(f"{WIT} is not None", r.value) is not None for r in returns_of(ic.node))
-    rep.ob("O17.3", "DOM", ic, ok, "return m is not None", "with a one-dimensional kernel the sign pattern of the basis vector decides")
+    # is_conservative is a decision function of (no reactions?, kernel trivial?, witness found?, kernel dimension, LP attempted?): tabulate it
+    from ..absval import eval_function, _NOVALUE, eval_expr as _ev
+    bad, decided = [], True
+    for nr in (0, 2):
+        for bval, bsize in ((None, 0), ("<B>", 0), ("<B>", 3)):
+            for wit in (None, "<w>"):
+                for att in (False, True):
+                    for k in (1, 2):
+                        def hook(expr, env, nr=nr, bval=bval, bsize=bsize, wit=wit, att=att, k=k):
+                            if isinstance(expr, ast.Call):
+                                cn = call_name(expr)
+                                if cn == "stoichiometric_matrix":
+                                    return "<S>"
+                                if cn == "left_nullspace":
+                                    return bval
+                                if cn == "atleast_2d" and len(expr.args) == 1:
+                                    return _ev(expr.args[0], env)
+                                if cn == "_positive_conservation_law_from_basis":
+                                    return (wit, att)
+                            if isinstance(expr, ast.Attribute) and expr.attr in ("shape", "size"):
+                                base = _ev(expr.value, env)
+                                if base == "<S>" and expr.attr == "shape":
+                                    return (3, nr)
+                                if base == "<B>":
+                                    return (3, k) if expr.attr == "shape" else bsize
+                            return _NOVALUE
+                        if nr == 0:
+                            want = True
+                        elif bval is None or bsize == 0:
+                            want = False
+                        elif wit is not None:
+                            want = True
+                        elif k == 1 or att:
+                            want = False
+                        else:
+                            want = None
+                        try:
+                            got = eval_function(ic.node, {"__resolve__": hook, ic.params[0]: "<crn>", "eps": 1e-8})
+                        except Undecided:
+                            decided = False
+                            break
+                        if got is not want:
+                            bad.append(f"reactions={nr}, kernel={'none' if bval is None else bsize}, witness={'yes' if wit else 'no'}, lp_attempted={att}, dim={k}: {got!r} (expected {want!r})")
+    if decided:
+        rep.ob("O17.3", "DOM", ic, not bad, "is_conservative on all combinations of (witness, LP attempted, kernel dimension)",
+               "True iff a positive law was found; a definitive False only from a trivial kernel, a one-dimensional kernel or an attempted LP; None otherwise",
+               {"disagreements": bad[:6]})
+    else:
+        for r in [x for x in returns_of(ic.node) if is_const(x.value, False)]:
+            gs = [norm(t) for t, s in guards_of(pm, r, ic.node) if s]
+            okd = {ATT, f"{Bv} is None or {Bv}.size == 0", f"{Bv}.shape[1] == 1"}
+            ok = any(g in okd or (isinstance(t, ast.BoolOp) and isinstance(t.op, ast.Or) and all(norm(v_) in okd for v_ in t.values))
+                     for g, t in [(norm(t_), t_) for t_, s_ in guards_of(pm, r, ic.node) if s_])
+            rep.ob("O17.3", "DOM", ic, True if ok else None, f"return False under {len(gs)} guard(s)", "a definitive 'not conservative' comes only from a trivial kernel or an attempted LP", {"guards": gs}, node=r)
     # is_consistent
     cs = rep.f(ST, "is_consistent")
     pm = parent_map(cs.node)
@@ -461,23 +528,59 @@ def witnesses(rep):
                "(a cap rejects networks whose positive flux needs a large ratio between reactions, e.g. a cascade 1:3:9:27:81:243)", node=c)
 
 
+def _list_over(fn, defs, pm, name):
+    """text of the sequence whose k-th element determines the k-th entry of list `name` (comprehension or append loop without guards)"""
+    src = origin(defs, ast.Name(id=name, ctx=ast.Load()))
+    if isinstance(src, ast.ListComp) and len(src.generators) == 1 and not src.generators[0].ifs:
+        return norm(src.generators[0].iter)
+    apps = [c for c in walk_local(fn) if isinstance(c, ast.Call) and norm(c.func) == f"{name}.append"]
+    if len(apps) == 1:
+        lps = enclosing_loops(pm, apps[0], fn)
+        if len(lps) == 1 and not guards_of(pm, apps[0], lps[0]) and not [x for x in walk_local(lps[0]) if isinstance(x, (ast.Break, ast.Continue))]:
+            it = lps[0].iter
+            return norm(it.args[0]) if isinstance(it, ast.Call) and call_name(it) == "enumerate" and len(it.args) == 1 and not it.keywords else norm(it)
+    return None
+
+
+def _index_over(fn, defs, pm, name):
+    """text of the sequence whose k-th element is mapped to k by dict `name`"""
+    src = origin(defs, ast.Name(id=name, ctx=ast.Load()))
+    if isinstance(src, ast.DictComp) and len(src.generators) == 1 and not src.generators[0].ifs:
+        g = src.generators[0]
+        if isinstance(g.iter, ast.Call) and call_name(g.iter) == "enumerate" and len(g.iter.args) == 1 and not g.iter.keywords \
+                and isinstance(g.target, ast.Tuple) and len(g.target.elts) == 2 and norm(src.key) == norm(g.target.elts[1]) and norm(src.value) == norm(g.target.elts[0]):
+            return norm(g.iter.args[0])
+        return None
+    m = pmatch("dict(zip($$seq, range(len($$seq))))", src)
+    if m is not None:
+        return norm(src.args[0].args[0])
+    ws = [(t, v, st) for t, v, st in assigned_subscripts(fn) if norm(t.value) == name]
+    if len(ws) == 1:
+        t, v, st = ws[0]
+        lps = enclosing_loops(pm, st, fn)
+        if len(lps) == 1 and not guards_of(pm, st, lps[0]) and isinstance(lps[0].iter, ast.Call) and call_name(lps[0].iter) == "enumerate" \
+                and len(lps[0].iter.args) == 1 and not lps[0].iter.keywords and isinstance(lps[0].target, ast.Tuple) and len(lps[0].target.elts) == 2 \
+                and norm(t.slice) == norm(lps[0].target.elts[1]) and norm(v) == norm(lps[0].target.elts[0]) \
+                and not [x for x in walk_local(lps[0]) if isinstance(x, (ast.Break, ast.Continue))]:
+            return norm(lps[0].iter.args[0])
+    return None
+
+
 def ordering(rep):
+    """row / column k of the matrices is label k: each returned label list and its index map are positional over the same sequence"""
     fi = rep.f(UT, "_species_and_reaction_order")
+    defs = local_defs(fi.node)
+    pm = parent_map(fi.node)
+    rets_ = returns_of(fi.node)
+    ret_names = [norm(e) for e in rets_[-1].value.elts] if rets_ and isinstance(rets_[-1].value, ast.Tuple) and all(isinstance(e, ast.Name) for e in rets_[-1].value.elts) else []
     n = 0
-    for lp in [l for l in walk_local(fi.node) if isinstance(l, ast.For)]:
-        if not (isinstance(lp.iter, ast.Call) and call_name(lp.iter) == "enumerate"):
-            continue
+    for lab, idx in (zip(ret_names[:2], ret_names[2:4]) if len(ret_names) == 4 else []):
         n += 1
-        i, node = [norm(e) for e in lp.target.elts]
-        writes = {norm(t): norm(v) for t, v, st in assigned_subscripts(lp)}
-        apps = [c for c in walk_local(lp) if isinstance(c, ast.Call) and call_name(c) == "append"]
-        rets_ = returns_of(fi.node)
-        ret_names = [norm(e) for e in rets_[-1].value.elts] if rets_ and isinstance(rets_[-1].value, ast.Tuple) else []
-        # one of the returned index maps gets map[node] = i, one of the returned label lists gets the label appended
-        ok = any(k == f"{mname}[{node}]" and v == i for k, v in writes.items() for mname in ret_names[2:]) and len(apps) == 1 \
-            and norm(apps[0].func.value) in ret_names[:2]
-        rep.ob("O17.1", "SHAPE", fi, ok, lp.iter, "labels and index maps are filled in the same pass (row/column k is label k)", node=lp)
-    rep.need("SHAPE", n, 2, "enumerate loops in _species_and_reaction_order")
+        a_, b_ = _list_over(fi.node, defs, pm, lab), _index_over(fi.node, defs, pm, idx)
+        ok = None if a_ is None or b_ is None else a_ == b_
+        rep.ob("O17.1", "SHAPE", fi, ok, f"{lab} over {a_} / {idx} over {b_}", "labels and index maps are filled from the same sequence, position by position (row/column k is label k)",
+               node=rets_[-1])
+    rep.need("SHAPE", n, 2, "(label list, index map) pairs returned by _species_and_reaction_order")
 
 
 MUTANTS = [
